@@ -16,6 +16,7 @@ pub enum Kind {
     Syntax,   // the text of the pattern has the wrong shape
     Differ,   // two outputs that must be equal differ
     Stage,    // a stage snapshot violates its contract
+    Other,
     Oracle,   // the oracle itself could not decide (counted, never reported as a violation)
 }
 
